@@ -201,12 +201,16 @@ func (service *TranslatorService) DecryptSearchable(ctx context.Context, data, h
 		dataToDecrypt = append(hash, data...)
 	}
 	logger.Debugln("Decrypt AcraStruct")
-	hashPart, containerData := hmac.ExtractHashAndData(dataToDecrypt)
-	if hashPart == nil {
-		return nil, ErrCantDecrypt
-	}
 	accessContext := base.NewAccessContext(base.WithClientID(clientID))
 	dataCtx := base.SetAccessContextToContext(ctx, accessContext)
+	hashPart, containerData := hmac.ExtractHashAndData(dataToDecrypt)
+	if hashPart == nil {
+		// a poison record carries no hash prefix: check for it like DecryptSymSearchable does
+		if _, _, err := service.poisonDetector.OnColumn(dataCtx, dataToDecrypt); err != nil {
+			logger.WithField(logging.FieldKeyEventCode, logging.EventCodeErrorDecryptorCantCheckPoisonRecord).WithError(err).Errorln("Can't check for poison record with AcraStruct, possible missing Poison record decryption key")
+		}
+		return nil, ErrCantDecrypt
+	}
 	dataContext := &base.DataProcessorContext{Keystore: service.data.Keystorage, Context: dataCtx}
 	handler, err := crypto.GetHandlerByEnvelopeID(crypto.AcraStructEnvelopeID)
 	if err != nil {
